@@ -30,6 +30,10 @@ type c12Case struct {
 	// KeepDir (with RmDirAt): the directory is NOT removed; instead the calls before RmDirAt run in a test whose name differs
 	// from the second test's name only in the case of one letter. The calls of the second test must end as they do alone.
 	KeepDir bool `json:"keep_directory_earlier_test_differs_in_case,omitempty"`
+	// Build: how the shared Configs come into being: "" = WithConfig(options...); "zero_then_apply" = A is WithConfig() with
+	// no options, the options are applied to it afterwards as the functions they are (snaps.Dir(d)(cfg)); "copy_then_apply" =
+	// B is a struct copy of A (b := *a) to which the overrides are applied afterwards
+	Build string `json:"how_the_shared_configs_are_built,omitempty"`
 }
 
 // optionValues builds the option functions of a spec (Dir relative to root); zero fields produce no option.
@@ -115,6 +119,7 @@ func genC12(t *rapid.T) c12Case {
 		}
 		c.Calls = append(c.Calls, c12Call{Call: call, Via: rapid.SampledFrom([]string{"A", "A", "A", "B", "late"}).Draw(t, "via")})
 	}
+	c.Build = rapid.SampledFrom([]string{"", "", "", "zero_then_apply", "copy_then_apply"}).Draw(t, "build")
 	if n >= 2 && rapid.IntRange(0, 3).Draw(t, "rmdir") == 0 {
 		c.RmDirAt = rapid.IntRange(2, n).Draw(t, "rmdirat")
 		// (with a fixed Filename the standalone files of two tests coincide by design: only without one)
@@ -142,6 +147,19 @@ func runC12From(c c12Case, shared bool, from int) (c12Obs, error) {
 		base := optionValues(root, c.Spec, true)
 		a = WithConfig(base...)
 		b = WithConfig(append(append([]func(*Config){}, base...), optionValues(root, c.Over, false)...)...)
+		switch c.Build {
+		case "zero_then_apply":
+			a = WithConfig()
+			for _, o := range base {
+				o(a)
+			}
+		case "copy_then_apply":
+			cp := *a
+			b = &cp
+			for _, o := range optionValues(root, c.Over, false) {
+				o(b)
+			}
+		}
 	}
 	// witness: the same document through Config A (and through the options of A built fresh) before and after the
 	// sequence; what A stores must not depend on the calls made in between (through A, B or any other Config)
